@@ -171,3 +171,29 @@ def failed_send_targets(body, bb):
                     keys |= body.origins(lc.args[1])
             out.append((sc, keys, direct))
     return out
+
+
+def dispatch_map(body, adt_suffix="message::Message", callee_prefix=None):
+    """For a function that matches on a Message: kind -> sorted handler names called in that arm
+    (arms reaching no handler map to 'ERR' when they build an Err, 'PANIC' when they diverge)."""
+    sw = [u for u in sorted(body.live_blocks()) if body.blocks[u]["t"]["k"] == "switch" and (body.switch_guard(u) or {}).get("kind") == "variant" and (body.switch_guard(u).get("adt") or "").endswith(adt_suffix)]
+    if not sw:
+        return None, None
+    # the dispatching switch is the one with the most targets
+    u = max(sw, key=lambda x: len(body.blocks[x]["t"]["v"]))
+    g = body.switch_guard(u)
+    t = body.blocks[u]["t"]
+    out = {}
+    for (val, bb) in t["v"]:
+        kind = g["labels"].get(val, val)
+        reach = body.reachable(bb, without_nodes=(u,))
+        hs = sorted(set(c.name for c in body.calls if c.bb in reach and c.callee and (callee_prefix is None or c.callee.startswith(callee_prefix))))
+        if hs:
+            out[kind] = hs
+            continue
+        errs = any(st["r"]["k"] == "agg" and st["r"].get("variant") in ("Err", "UnexpectedMessageReceived") for i in reach for st in body.blocks[i]["s"])
+        div = any(body.blocks[i]["t"]["k"] == "call" and body.blocks[i]["t"]["t"] is None for i in reach)
+        out[kind] = ["ERR"] if errs else (["PANIC"] if div else [])
+    other = body.blocks[t["o"]]
+    wildcard = other["t"]["k"] != "unreachable"
+    return out, {"switch": u, "wildcard": wildcard, "kinds": sorted(g["labels"].values())}
